@@ -202,3 +202,76 @@ def Arr.shapeIn (x : Arr R) (k : Kind) : Branch → Shape R
 end factor
 
 end CuqiVerif.C06
+
+/-! ## scipy.sparse storage: which branch each format takes (second pass) -/
+namespace CuqiVerif.C06
+
+/-- how the 2-D parameter is stored when it reaches the setter -/
+inductive Storage | dense | dia | csr | csc | coo | bsr | lil
+  deriving DecidableEq, Repr
+
+/-- the code path of `get_sqrtprec_from_<kind>` for a square 2-D parameter with ≥ 2 rows -/
+inductive Path
+  /-- `count_nonzero(x − diag(x.diagonal())) == 0`: `np.diag(...)` of the transformed diagonal (dense result, also for sparse input) -/
+  | diagBranch
+  /-- dense full matrix: symmetry test, `inv`, `cholesky(...).T` (`facFull`) -/
+  | denseFull
+  /-- sparse full `cov` / `prec` / `sqrtcov` (no cholmod): NO symmetry test; `spa.linalg.inv` + `sparse_cholesky`,
+      `sparse_cholesky`, `spa.linalg.inv(sqrtcov)` -/
+  | sparseFull
+  /-- `sqrtprec` stored in DIA format: `isspmatrix_dia` is tested BEFORE diagonality and only looks at the
+      format — the matrix is kept as given, off-diagonal bands included -/
+  | keptDia
+  /-- sparse (non-DIA) diagonal `sqrtprec`: kept as given -/
+  | keptDiagonal
+  /-- sparse (non-DIA) full `sqrtprec`: kept as given -/
+  | keptFull
+  deriving DecidableEq, Repr
+
+/-- the dispatch table -/
+def storedPath (k : Kind) (st : Storage) (isDiag : Bool) : Path :=
+  match st with
+  | .dense => if isDiag then .diagBranch else .denseFull
+  | _ =>
+    match k with
+    | .sqrtprec => if st = .dia then .keptDia else if isDiag then .keptDiagonal else .keptFull
+    | _ => if isDiag then .diagBranch else .sparseFull
+
+/-- is the stored `sqrtprec` a scipy.sparse matrix? -/
+def Path.resultSparse : Path → Bool
+  | .diagBranch | .denseFull => false
+  | _ => true
+
+section stored
+variable {R : Type} [Zero R] [One R] [Add R] [Sub R] [Mul R] [Div R] [LT R]
+  [DecidableEq R] [DecidableLT R]
+
+/-- the sparse full branches (no cholmod) -/
+def facFullSparse (rt : R → Option R) (inv : Nat → Mat R → Option (Mat R)) (k : Kind) (n : Nat) (A : Mat R) : Fac R :=
+  match k with
+  | .cov =>
+    match invChecked inv n A with
+    | none => .err .linAlgError
+    | some C => facChol rt n C
+  | .prec => facChol rt n A
+  | .sqrtcov =>
+    match invChecked inv n A with
+    | none => .err .linAlgError
+    | some C => .ok .full n C
+  | .sqrtprec => .ok .full n A
+
+/-- `Gaussian.<kind> = value` for a value in the given storage (dense: `sqrtprecOf`; sparse: square with at
+    least two rows — a `1 × 1` sparse matrix is outside the model, a non-square one raises `ValueError`) -/
+def sqrtprecOfStored (rt : R → Option R) (inv : Nat → Mat R → Option (Mat R)) (dim : Nat) (k : Kind)
+    (st : Storage) (x : Arr R) : Fac R :=
+  if st = .dense then sqrtprecOf rt inv dim k x
+  else if x.rows ≠ x.cols ∨ x.rows < 2 then .err .valueError
+  else
+    match storedPath k st x.isDiag with
+    | .diagBranch => facDiag rt k .diagonal x.rows (fun i => x.a i i)
+    | .denseFull => facFull rt inv k x.rows x.a
+    | .sparseFull => facFullSparse rt inv k x.rows x.a
+    | .keptDia | .keptDiagonal | .keptFull => .ok .full x.rows x.a
+
+end stored
+end CuqiVerif.C06
